@@ -58,7 +58,7 @@ def single_desc(c):
 @st.composite
 def _generated(draw, tier):
     big = tier == "thorough"
-    desc = draw(gen.wellformed(max_targets=10 if big else 6, max_files=14 if big else 8, ticks=4))
+    desc = draw(gen.wellformed(max_targets=10 if big else 6, max_files=14 if big else 8, ticks=4, wds=(None, None, None, "w1", "w1/w2")))
     names = [t["name"] for t in desc["targets"]]
     vec = {n: draw(st.sampled_from(["unknown", "unknown", "completed"])) for n in names}
     hashing = draw(st.booleans())
@@ -83,7 +83,7 @@ def _cli_strategy(tier):
         c = draw(_generated(tier))
         # hashing_cli: spec hashing switched on in a project that has no record file yet (every target is stale);
         # step: seconds between two ticks of the mtime ladder (0.25 keeps all files within one second)
-        return dict(c, kind="cli", hashing=False, records={}, hashing_cli=draw(st.sampled_from([False, False, True])),
+        return dict(c, kind="cli", invoke=draw(gen.invoke()), hashing=False, records={}, hashing_cli=draw(st.sampled_from([False, False, True, "off:no", "off:false", "off:0"])),
                     step=draw(st.sampled_from([10, 0.25, 0.25])))
 
     return cli()
@@ -99,10 +99,18 @@ def run_cli(case):
 
     desc, vec = case["desc"], case["backend"]
     R = model.Resolved(desc)
-    hc = bool(case.get("hashing_cli"))
+    # "off:<word>": hashing was on in the configuration file and is switched off the way a user does it
+    # (`gwf config set use_spec_hashes <word>`); no record file exists, so if hashing stayed on every target were stale
+    off_word = case["hashing_cli"][4:] if isinstance(case.get("hashing_cli"), str) else None
+    hc = bool(case.get("hashing_cli")) and off_word is None
     want, subs = R.plan(R.by_name.keys(), {}, hc, {})
     viols = []
-    with project.Project(desc, backend="slurm", config={"use_spec_hashes": True} if hc else None) as proj:
+    with project.Project(desc, backend="slurm", config={"use_spec_hashes": True} if hc or off_word else None,
+                         invoke=case.get("invoke")) as proj:
+        if off_word:
+            rc_ = proj.gwf(["config", "set", "use_spec_hashes", off_word])
+            if rc_.code != 0 or rc_.crashed:
+                return CaseResult([Violation({"kind": "config-set-failed"}, rc_.brief())], False, ["cli"])
         proj.tick_step = case.get("step", 10)
         proj.base_mtime = -proj.tick_step  # tick 1 -> 1970-01-01T00:00:00
         proj.set_files(desc["files"])
@@ -131,6 +139,8 @@ def run_cli(case):
         labels.add("sub-second-mtimes")
     if hc:
         labels.add("hashing-no-record")
+    if off_word:
+        labels.add("hashing-switched-off-through-cli")
     return CaseResult(viols, nt, sorted(labels))
 
 
